@@ -60,11 +60,13 @@ def main(argv=None):
                 traceback.print_exc()
         except Exception as e:  # fail closed: an internal error is not a pass
             ctx.precondition_failed("internal error in %s [%s]: %r\n%s" % (prop, cfg, e, traceback.format_exc()[-1500:]))
-    if a.tier == "thorough" and hasattr(mod, "thorough_extra") and not a.facts:
+    if a.tier == "thorough" and not a.facts and not a.repo and not os.environ.get("VERIF_NO_SELFTEST"):
         try:
-            mod.thorough_extra(ctx)
+            from .selftest import run_selftests
+            ctx.config = "selftest"
+            run_selftests(ctx, prop)
         except Exception as e:
-            ctx.precondition_failed("internal error in thorough_extra: %r\n%s" % (e, traceback.format_exc()[-1500:]))
+            ctx.precondition_failed("internal error in the selftest stage: %r\n%s" % (e, traceback.format_exc()[-1500:]))
     lines, rc, ev = ctx.finish(write=not a.no_evidence)
     cov = ev["coverage"]
     print("%s tier=%s configs=%s obligations=%d discharged=%d known=%d violations=%d wall=%.1fs" % (
